@@ -302,6 +302,10 @@ def known_filter(prop, pid, fails, known):
     return new, matched
 
 
+# translators whose every definition is translated on the pinned text: an UNSUPPORTED note is a change of the source
+STRICT_TRANSLATORS = ("t9_weaver", "t10_process", "t11_match", "t12_rfaparams", "t13_interval")
+
+
 def main(argv=None):
     ap = argparse.ArgumentParser()
     ap.add_argument("pid")
@@ -360,6 +364,11 @@ def run(pid, tier, seed, args, t0):
         regen_notes.append(f"{t}: {note}")
         if note.startswith("UNSUPPORTED") and getattr(mod, "REQUIRED", False):
             broken.append(f"translator {t}: {note}")
+        elif "UNSUPPORTED" in note and t in STRICT_TRANSLATORS:
+            # the text of a function left the translated subset: its generated definition is an alias of the hand model,
+            # the tie theorem holds trivially and no longer says anything about the code - a broken obligation (a harmless
+            # rewrite can cause it too; the search for a failing input decides what is reported)
+            broken.append(f"translator {t}: the model is no longer regenerated from the source text: {note}")
 
     # --- 3. build ----------------------------------------------------------------------------------
     modules = list(prop.MODULES)
